@@ -1,0 +1,9 @@
+//go:build verif
+
+package concurrent
+
+// VerifExecTask runs the task through the real worker-pool task execution (panic routing to the
+// task's panic handler) on the caller's goroutine (only compiled with -tags verif).
+func VerifExecTask(p Pool, task *Task) {
+	p.(*workerPool).execTask(task)
+}
